@@ -72,6 +72,13 @@ pub struct OsState {
     /// every call of this operation with its outcome
     pub calls: Vec<String>,
     pub waits_ms: u64,
+    /// number of every trait call of this operation (pid lookups included), for `die_at`
+    pub seq_no: u32,
+    /// right before the call with this sequence number the process the call is about dies
+    pub die_at: Option<u32>,
+    /// (binary, label, call count right after the first pid lookup for that binary that followed the death
+    /// within the same operation, if any)
+    pub mid_op_killed: Vec<(PathBuf, String, Option<u32>, u32)>, // last field: pid of the dead process
 }
 
 impl OsState {
@@ -91,6 +98,24 @@ impl OsState {
         self.silent_launch_failure = silent_launch_failure;
         self.fired.clear();
         self.calls.clear();
+        self.seq_no = 0;
+        self.die_at = None;
+        self.mid_op_killed.clear();
+    }
+
+    /// Count this call; if it is the chosen one, the process selected by `which` dies before the call runs.
+    fn maybe_die(&mut self, which: impl Fn(&PathBuf, &Proc) -> bool) {
+        let n = self.seq_no;
+        self.seq_no += 1;
+        if self.die_at != Some(n) {
+            return;
+        }
+        let victim = self.procs.iter().find(|(k, p)| which(k, p)).map(|(k, p)| (k.clone(), p.label.clone(), p.pid));
+        if let Some((bin, label, pid)) = victim {
+            self.procs.remove(&bin);
+            self.calls.push(format!("!! process of {label} dies (right before call #{n} of this invocation)"));
+            self.mid_op_killed.push((bin, label, None, pid));
+        }
     }
 
     /// Number this call; true if it must fail.
@@ -168,6 +193,7 @@ impl SimControl {
 impl ServiceControl for SimControl {
     fn create_service_user(&self, username: &str) -> SmResult<()> {
         let mut os = self.lock();
+        os.maybe_die(|_, _| false);
         if os.tick("create_service_user") {
             os.note(format!("create_service_user({username}) -> ERR"));
             return Err(SmError::ServiceUserAccountCreationFailed);
@@ -179,6 +205,7 @@ impl ServiceControl for SimControl {
 
     fn get_available_port(&self) -> SmResult<u16> {
         let mut os = self.lock();
+        os.maybe_die(|_, _| false);
         if os.tick("get_available_port") {
             os.note("get_available_port -> ERR".into());
             return Err(io_err(std::io::ErrorKind::AddrNotAvailable, "bind 127.0.0.1:0 failed"));
@@ -192,6 +219,7 @@ impl ServiceControl for SimControl {
     fn install(&self, install_ctx: ServiceInstallCtx, user_mode: bool) -> SmResult<()> {
         let mut os = self.lock();
         let label = install_ctx.label.to_string();
+        os.maybe_die(|_, p| p.label == label);
         if os.tick("install") {
             os.note(format!("install({label}) -> ERR"));
             return Err(io_err(std::io::ErrorKind::PermissionDenied, "cannot write service definition"));
@@ -223,6 +251,13 @@ impl ServiceControl for SimControl {
             .and_then(|p| p.file_name())
             .map(|s| s.to_string_lossy().to_string())
             .unwrap_or_default();
+        os.maybe_die(|k, _| k.as_path() == path);
+        let now = os.seq_no;
+        for d in os.mid_op_killed.iter_mut() {
+            if d.0.as_path() == path && d.2.is_none() {
+                d.2 = Some(now); // the manager gets to see that the process is gone
+            }
+        }
         if os.tick("get_process_pid") {
             os.note(format!("get_process_pid({name}) -> ERR"));
             return Err(SmError::ServiceProcessNotFound(path.to_string_lossy().to_string()));
@@ -241,6 +276,7 @@ impl ServiceControl for SimControl {
 
     fn start(&self, service_name: &str, user_mode: bool) -> SmResult<()> {
         let mut os = self.lock();
+        os.maybe_die(|_, p| p.label == service_name);
         if os.tick("start") {
             os.note(format!("start({service_name}) -> ERR"));
             return Err(io_err(std::io::ErrorKind::Other, "systemctl start failed"));
@@ -296,6 +332,7 @@ impl ServiceControl for SimControl {
 
     fn stop(&self, service_name: &str, user_mode: bool) -> SmResult<()> {
         let mut os = self.lock();
+        os.maybe_die(|_, p| p.label == service_name);
         if os.tick("stop") {
             os.note(format!("stop({service_name}) -> ERR"));
             return Err(io_err(std::io::ErrorKind::Other, "systemctl stop failed"));
@@ -314,6 +351,7 @@ impl ServiceControl for SimControl {
 
     fn uninstall(&self, service_name: &str, user_mode: bool) -> SmResult<()> {
         let mut os = self.lock();
+        os.maybe_die(|_, p| p.label == service_name);
         if os.tick("uninstall") {
             os.note(format!("uninstall({service_name}) -> ERR"));
             return Err(io_err(std::io::ErrorKind::PermissionDenied, "cannot remove service definition"));
@@ -354,6 +392,8 @@ impl SimRpc {
 impl RpcActions for SimRpc {
     async fn node_info(&self) -> SmResult<NodeInfo> {
         let mut os = self.os.lock();
+        let addr = self.addr;
+        os.maybe_die(|_, p| p.rpc == Some(addr));
         if os.tick("rpc.node_info") {
             os.note("rpc.node_info -> ERR".into());
             return Err(SmError::RpcNodeInfoError("status: Unavailable".into()));
@@ -380,6 +420,8 @@ impl RpcActions for SimRpc {
 
     async fn network_info(&self) -> SmResult<NetworkInfo> {
         let mut os = self.os.lock();
+        let addr = self.addr;
+        os.maybe_die(|_, p| p.rpc == Some(addr));
         if os.tick("rpc.network_info") {
             os.note("rpc.network_info -> ERR".into());
             return Err(SmError::RpcNodeInfoError("status: Unavailable".into()));
@@ -425,6 +467,8 @@ impl RpcActions for SimRpc {
 
     async fn is_node_connected_to_network(&self, _timeout: Duration) -> SmResult<()> {
         let mut os = self.os.lock();
+        let addr = self.addr;
+        os.maybe_die(|_, p| p.rpc == Some(addr));
         if os.tick("rpc.is_node_connected_to_network") {
             os.note("rpc.is_node_connected_to_network -> ERR".into());
             return Err(SmError::RpcConnectionError(self.endpoint()));
